@@ -155,6 +155,54 @@ def run(ctx):
                 finally:
                     os.unlink(tf)
             results = pool.map(do, cases)
+        # a target that serves its first connection and then refuses every reconnect (the probe phases find the port closed): its report is complete apart from
+        # the measurements, and nothing but the blocks / array elements of the listed targets reaches stdout.  One-shot servers: a fresh one per run, run serially.
+        ref_runs = []
+        with runner.Pool(1) as pool1:
+            for lst, js, th in ([(['probe-refused', 'ok-warn'], True, 1), (['ok-fail', 'probe-refused'], False, 1), (['probe-refused'], True, 1), (['ok-clean', 'probe-refused', 'ok-warn'], True, 3),
+                                 (['probe-refused', 'ok-clean'], False, 2)] if q else
+                                [(l, js, th) for l in (['probe-refused', 'ok-warn'], ['ok-fail', 'probe-refused'], ['probe-refused'], ['ok-clean', 'probe-refused', 'ok-warn'], ['probe-refused', 'probe-refused']) for js in (True, False) for th in (1, 3)]):
+                fresh = []
+                tl = []
+                for n in lst:
+                    if n == 'probe-refused':
+                        s1 = P.new_ssh2_server(dict(banner=b'SSH-2.0-OpenSSH_8.0', kex=['curve25519-sha256', 'diffie-hellman-group-exchange-sha256'], key=['ssh-ed25519', 'rsa-sha2-512'], enc=['aes256-ctr'], mac=['hmac-sha2-256'],
+                                                    hostkeys={b'ssh-ed25519': P.ed25519_blob(), b'rsa-sha2-512': P.rsa_blob(3072)}, gex=lambda a, b, c: 3072 if a <= 3072 <= c else None), stall_limit=3.0, max_accept=1)
+                        fresh.append(s1)
+                        tl.append('127.0.0.1:%d' % s1.port)
+                    else:
+                        tl.append(targets[n])
+                tf = os.path.join(tmp, 'pr%d.txt' % len(ref_runs))
+                with open(tf, 'w') as f:
+                    f.write('\n'.join(tl) + '\n')
+                try:
+                    r = pool1.zs[0].run((['-j'] if js else ['-n']) + ['--skip-rate-test', '-t', '1', '--threads', str(th), '-T', tf], timeout=120)
+                finally:
+                    for s1 in fresh:
+                        s1.shutdown()
+                    os.unlink(tf)
+                ref_runs.append((lst, js, th, tl, r))
+        for lst, js, th, tl, r in ref_runs:
+            desc = {'op': 'cli-multi-probe-refused', 'list': lst, 'threads': th, 'json': js}
+            if r['timed_out'] or r['rc'] not in (0, 2, 3):
+                ctx.violation('probe-refused/status', 'run over %r exits %r (timed out: %r): %s' % (lst, r['rc'], r['timed_out'], (r['out'] + r['err'])[-200:]), desc)
+                continue
+            if js:
+                try:
+                    arr = json.loads(r['out'])
+                    if not isinstance(arr, list) or sorted(str(e.get('target')) for e in arr) != sorted(tl):
+                        ctx.violation('probe-refused/json-elements', 'JSON elements %r for targets %r' % ([e.get('target') for e in arr] if isinstance(arr, list) else arr, tl), desc)
+                    elif any('error' in e for e in arr):
+                        ctx.violation('probe-refused/report-lost', 'a target whose handshake succeeded is reported as an error: %r' % ([e for e in arr if 'error' in e][:1],), desc)
+                except ValueError as e:
+                    ctx.violation('probe-refused/json-malformed', 'stdout of -T -j over %r is not one JSON document: %s: %r' % (lst, e, r['out'][:200]), desc)
+            else:
+                txt = canon.strip_ansi(r['out'])
+                blocks = txt.split('-' * 80 + '\n\n')
+                stray = [ln for ln in txt.split('\n') if ln.startswith('[exception]')]
+                if len(blocks) != len(lst) or stray or any(not re.search(r'^\((kex|enc)\) ', b, re.M) for b in blocks):
+                    ctx.violation('probe-refused/text-blocks', '%d blocks for %d targets, error lines %r (every target passed its handshake: one report each, no error line)' % (len(blocks), len(lst), stray[:2]), desc)
+        ctx.evaluations += len(ref_runs)
         terms, descs = [], []
         nontriv = set()
         for c, r in zip(cases, results):
